@@ -105,6 +105,88 @@ func main() {
 			}
 		}
 	}
+	// ---- family D: shadowing with a DIFFERENT signature, and ambiguous / depth-resolved promotions:
+	// which script-defined interfaces the dynamic type satisfies must follow the outermost method only
+	ifaces := "type IS interface{ M() string }\n\ntype II interface{ M() int }\n\ntype IA interface{ M(x int) string }\n\n"
+	for _, embB := range []string{"B", "*B"} {
+		for _, sig := range []string{"none", "same", "int", "arg"} {
+			for _, shRecv := range []string{"T", "*T"} {
+				if sig == "none" && shRecv != "T" {
+					continue
+				}
+				for _, depth := range []string{"2", "3v", "3p"} {
+					for _, holder := range []string{"val", "ptr"} {
+						decl := "type B struct{ N int }\n\nfunc (b B) M() string { return \"B.M\" }\n\n" + ifaces
+						decl += fmt.Sprintf("type T struct {\n\t%s\n\tK int\n}\n\n", embB)
+						direct := "Show(v.M())"
+						switch sig {
+						case "same":
+							decl += fmt.Sprintf("func (t %s) M() string { return \"T.M\" }\n\n", shRecv)
+						case "int":
+							decl += fmt.Sprintf("func (t %s) M() int { return 70 + t.K }\n\n", shRecv)
+						case "arg":
+							decl += fmt.Sprintf("func (t %s) M(x int) string { return \"T.M/arg\" }\n\n", shRecv)
+							direct = "Show(v.M(3))"
+						}
+						inner := "T{B: B{1}, K: 2}"
+						if embB == "*B" {
+							inner = "T{B: &B{1}, K: 2}"
+						}
+						lit := inner
+						switch depth {
+						case "3v":
+							decl += "type U struct {\n\tT\n\tL int\n}\n\n"
+							lit = "U{T: " + inner + "}"
+						case "3p":
+							decl += "type U struct {\n\t*T\n\tL int\n}\n\n"
+							lit = "U{T: &" + inner + "}"
+						}
+						init := "v := " + lit
+						if holder == "ptr" {
+							init = "v := &" + lit
+						}
+						uses := [][2]string{
+							{"assertAll", "var e interface{} = v\n_, ok1 := e.(IS)\n_, ok2 := e.(II)\n_, ok3 := e.(IA)\nShow(ok1, ok2, ok3)"},
+							{"assertCall", "var e interface{} = v\nif x, ok := e.(II); ok {\nShow(\"II\", x.M())\n}\nif x, ok := e.(IS); ok {\nShow(\"IS\", x.M())\n}\nif x, ok := e.(IA); ok {\nShow(\"IA\", x.M(4))\n}"},
+							{"assert1II", "defer func() { Show(recover() != nil) }()\nvar e interface{} = v\nx := e.(II)\nShow(x.M())"},
+							{"assert1IS", "defer func() { Show(recover() != nil) }()\nvar e interface{} = v\nx := e.(IS)\nShow(x.M())"},
+							{"switchSIA", "var e interface{} = v\nswitch e.(type) {\ncase IS:\nShow(\"IS\")\ncase II:\nShow(\"II\")\ncase IA:\nShow(\"IA\")\ndefault:\nShow(\"none\")\n}"},
+							{"switchAIS", "var e interface{} = v\nswitch e.(type) {\ncase IA:\nShow(\"IA\")\ncase II:\nShow(\"II\")\ncase IS:\nShow(\"IS\")\ndefault:\nShow(\"none\")\n}"},
+							{"direct", direct},
+							{"innerPath", "Show(v.B.M())"},
+							{"viaNamedIface", "type Namer interface{ Name() string }\nvar e interface{} = v\n_, okN := e.(Namer)\n_, okS := e.(IS)\nShow(okN, okS)"},
+						}
+						for _, u := range uses {
+							name := fmt.Sprintf("D embB=%s sig=%s shRecv=%s depth=%s h=%s u=%s", embB, sig, shRecv, depth, holder, u[0])
+							progs = append(progs, emit.Src{Name: name, Text: head + decl + "func main() {\n" + init + "\n" + u[1] + "\n}\n"})
+						}
+					}
+				}
+			}
+		}
+	}
+	// ambiguity and depth resolution: two embedded types providing M
+	for _, shape := range [][2]string{
+		{"same-depth-ambiguous", "type B1 struct{}\n\nfunc (B1) M() string { return \"B1.M\" }\n\ntype B2 struct{}\n\nfunc (B2) M() int { return 2 }\n\ntype T struct {\n\tB1\n\tB2\n}\n\n"},
+		{"shallower-wins-string", "type B1 struct{}\n\nfunc (B1) M() string { return \"B1.M\" }\n\ntype B2 struct{}\n\nfunc (B2) M() int { return 2 }\n\ntype C struct{ B2 }\n\ntype T struct {\n\tB1\n\tC\n}\n\n"},
+		{"shallower-wins-int", "type B1 struct{}\n\nfunc (B1) M() string { return \"B1.M\" }\n\ntype B2 struct{}\n\nfunc (B2) M() int { return 2 }\n\ntype C struct{ B1 }\n\ntype T struct {\n\tC\n\tB2\n}\n\n"},
+		{"field-shadows-method", "type B1 struct{}\n\nfunc (B1) M() string { return \"B1.M\" }\n\ntype T struct {\n\tB1\n\tM int\n}\n\n"},
+		{"outer-int-over-two-inner", "type B1 struct{}\n\nfunc (B1) M() string { return \"B1.M\" }\n\ntype B2 struct{}\n\nfunc (B2) M() string { return \"B2.M\" }\n\ntype T struct {\n\tB1\n\tB2\n}\n\nfunc (T) M() int { return 9 }\n\n"},
+	} {
+		for _, holder := range []string{"val", "ptr"} {
+			init := "v := T{}"
+			if holder == "ptr" {
+				init = "v := &T{}"
+			}
+			for _, u := range [][2]string{
+				{"assertAll", "var e interface{} = v\n_, ok1 := e.(IS)\n_, ok2 := e.(II)\nShow(ok1, ok2)"},
+				{"assertCall", "var e interface{} = v\nif x, ok := e.(II); ok {\nShow(\"II\", x.M())\n}\nif x, ok := e.(IS); ok {\nShow(\"IS\", x.M())\n}"},
+				{"switch", "var e interface{} = v\nswitch e.(type) {\ncase IS:\nShow(\"IS\")\ncase II:\nShow(\"II\")\ndefault:\nShow(\"none\")\n}"},
+			} {
+				progs = append(progs, emit.Src{Name: fmt.Sprintf("D2 shape=%s h=%s u=%s", shape[0], holder, u[0]), Text: head + shape[1] + ifaces + "func main() {\n" + init + "\n" + u[1] + "\n}\n"})
+			}
+		}
+	}
 	// ---- family N: nil interface values and typed nil pointers
 	for _, rB := range []string{"B", "*B"} {
 		decl := "type B struct{ N int }\n\n" + fmt.Sprintf("func (b %s) M() string { return \"B.M\" }\n\n", rB) + "type I interface{ M() string }\n\n"
